@@ -7,7 +7,7 @@ import os
 
 from vcommon import Prop, REPO, load_corpus
 import gen_c14
-from gen_c14 import OPS, fill_args
+from gen_c14 import OPS, F_OPS, fill_args
 
 # keys of the shell snapshot that are the importer's own handle, not a patched IPython attribute
 HANDLES = {"app.auto_importer", "ip._auto_importer"}
@@ -15,6 +15,67 @@ HANDLES = {"app.auto_importer", "ip._auto_importer"}
 IPY_NOISE = {"Completer.matches", "extension_manager.loaded"}
 
 JP_ORDER = [n for n, _ in gen_c14.JOINPOINTS]
+# snapshot keys of the hook lists a third party may rebind / extend
+LIST_KEYS = {"ip.traits.ast_transformers", "itm.cleanup_transforms", "ip.traits.input_transformers_post",
+             "Completer.traits.custom_matchers"}
+
+
+def has_foreign(ops):
+    return any(o.startswith("f_") for o in ops)
+
+
+def model_ops(cfg, ops):
+    """(model ops, index of the last model op of each real op)"""
+    fail = 4 if cfg == "jedi" else None
+    mops, marks = [], []
+    fast, fcl = [], []          # foreign ids present, oldest first
+    na, nc = 100, 200
+    for op in ops:
+        if cfg == "embedded":
+            mops.append(["fresh"])
+        if op == "enable":
+            mops.append(["enable", False, fail])
+        elif op == "enable_again":
+            mops.append(["enable", True, fail])
+        elif op == "disable":
+            mops.append(["disable"])
+        elif op == "load_ext":
+            mops.append(["loadExt", fail])
+        elif op == "unload_ext":
+            mops.append(["unloadExt"])
+        elif op == "reload_ext":
+            mops.append(["reloadExt", fail])
+        elif op == "run_cell":
+            mops.append(["invoke", "astVisit", "ok"])
+        elif op == "complete":
+            mops.append(["invoke", "globalMatches", "ok"])
+        elif op == "f_rebind_ast":
+            mops.append(["foreign", "rebindAst"])
+        elif op == "f_rebind_cleanup":
+            mops.append(["foreign", "rebindCleanup"])
+        elif op == "f_add_ast":
+            na += 1
+            fast.append(na)
+            mops.append(["foreign", "addAst", na])
+        elif op == "f_rm_ast":
+            mops.append(["foreign", "rmAst", fast.pop(0)] if fast else ["foreign", "other"])
+        elif op == "f_filter_ast":
+            for n in fast:
+                mops.append(["foreign", "rmAst", n])
+            fast = []
+            mops.append(["foreign", "rebindAst"])
+        elif op == "f_add_cleanup":
+            nc += 1
+            fcl.append(nc)
+            mops.append(["foreign", "addCleanup", nc])
+        elif op == "f_rm_cleanup":
+            mops.append(["foreign", "rmCleanup", fcl.pop(0)] if fcl else ["foreign", "other"])
+        elif op.startswith("f_"):
+            mops.append(["foreign", "other"])
+        else:
+            raise ValueError(op)
+        marks.append(len(mops) - 1)
+    return mops, marks
 
 
 def case_key(case):
@@ -83,6 +144,10 @@ class C14(Prop):
         "Pfb.C14.C14_no_residue_partial",
         "Pfb.C14.C14_two_state",
         "Pfb.C14.C14_cell_behaviour",
+        "Pfb.C14.C14_reversible_foreign",
+        "Pfb.C14.C14_no_residue_foreign",
+        "Pfb.C14.C14_once_foreign",
+        "Pfb.Hooks.applyD_applyForeign",
         "Pfb.C14.D3_leak_unbounded",
         "Pfb.C14.D3_witness_not_reversible",
         "Pfb.C14.D3_witness_not_once",
@@ -117,7 +182,11 @@ class C14(Prop):
             "disable, load_ext, unload_ext, reload_ext, run_cell, complete} on a fresh real IPython 9 shell per sequence "
             "(forked from a pristine zygote): all sequences of length <= 3 and a sample of length 3-6 in quick, all of "
             "length <= 4 in thorough; plus the use_jedi=True and embedded-shell configurations; a case is non-trivial when "
-            "the importer gets enabled at least once; distinct by (configuration, op sequence)")
+            "the importer gets enabled at least once; distinct by (configuration, op sequence).  Round 2: third-party steps "
+            "(rebind ip.ast_transformers / cleanup_transforms / input_transformers_post / custom_matchers to new list objects, "
+            "append / remove / filter foreign transformers, set_hook) inserted anywhere: every (enable, f, [g,] disable) "
+            "combination exhaustively and 1-3 random insertions in 45 % of the sampled sequences; compared step by step with "
+            "the same third-party steps on a shell where pyflyby is never enabled")
     trusted_base = [
         "IPython 9.17 internals: ExtensionManager.load/unload/reload_extension, which attribute each hook lives in, "
         "list.remove (modelled, validated by the correspondence run only)",
@@ -183,7 +252,16 @@ class C14(Prop):
             return
         keys = list(uniq)
         res = self.lab.run_mixed([self._job(uniq[k]) for k in keys])
+        # histories with third-party steps: the same steps on a shell on which pyflyby is never enabled
+        fk = [k for k in keys if has_foreign(uniq[k]["ops"])]
+        fres = self.lab.run_mixed([self._job(uniq[k], pf=False) for k in fk])
+        fmap = dict(zip(fk, fres))
         for k, r in zip(keys, res):
+            if k in fmap and "lab_error" not in r:
+                if "lab_error" in fmap[k]:
+                    r = fmap[k]
+                else:
+                    r = dict(r, fref=[st.get("hlnames") for st in fmap[k]["steps"]])
             self._cache[k] = r
 
     # -- cases -----------------------------------------------------------------
@@ -204,6 +282,16 @@ class C14(Prop):
                         ["enable", "enable", "disable", "enable", "disable", "run_cell"],
                         ["enable_again", "reload_ext", "run_cell", "unload_ext", "run_cell"]):
                 out.append(dict(config=cfg, ops=ops))
+        # third-party steps between (and around) enable and disable
+        for f in F_OPS:
+            for ops in (["enable", f, "disable", "run_cell"], [f, "enable", "run_cell", "disable"],
+                        ["enable", f, "disable", "enable", "disable", "run_cell"], ["load_ext", f, "reload_ext", f, "unload_ext"]):
+                out.append(dict(config="terminal", ops=ops))
+        for f, g in itertools.product(F_OPS[:8], repeat=2):
+            out.append(dict(config="terminal", ops=["enable", f, g, "disable", "run_cell"]))
+            if tier == "thorough":
+                out.append(dict(config="terminal", ops=[f, "enable", g, "disable", "complete"]))
+                out.append(dict(config="terminal", ops=["enable", f, "disable", g, "enable", "run_cell"]))
         for c in load_corpus(self.id):
             self._plan(c)
         return [self._plan(c) for c in out]
@@ -219,6 +307,8 @@ class C14(Prop):
             ops = gen_c14.gen_ops(rng, 6)
             while len(ops) < 3:
                 ops = gen_c14.gen_ops(rng, 6)
+        if cfg != "embedded" and rng.random() < 0.45:
+            ops = gen_c14.add_foreign(rng, ops)
         return self._plan(dict(config=cfg, ops=ops))
 
     # -- implementation ----------------------------------------------------------
@@ -273,13 +363,25 @@ class C14(Prop):
                     if n > 1:
                         F("a hook list holds more than one pyflyby entry", i, key=key, count=n,
                           names=sorted({t[3] for t in _pf_tokens(b)}))
+            # --- third-party entries survive, untouched and in order, at every step
+            fref = obs.get("fref")
+            if fref is not None and fref[i] is not None:
+                for lname, want in fref[i].items():
+                    got = [n for n in st["hlnames"][lname] if n != "PF"]
+                    if got != want:
+                        F("the non-pyflyby entries of a hook list differ from the run without pyflyby", i, list=lname,
+                          got=got[-6:], want=want[-6:])
             # --- reversibility
             if not en_before and en_after:
                 enable_points.append((i, sorted(changed)))
             if en_before and not en_after and enable_points:
                 k, patched = enable_points[-1]
                 pre = steps[k - 1]["diff0"] if k else {}
+                foreign_between = any(o.startswith("f_") for o in ops[k + 1:i])
                 for key in patched:
+                    if foreign_between and key in LIST_KEYS:
+                        continue        # third parties changed the list meanwhile: compared with `fref` above and
+                                        # by the residue check below instead of with its pre-enable identity
                     if _val(diff0, key) != _val(pre, key):
                         F("after disable a patched attribute is not back to its pre-enable value", i, key=key,
                           enabled_at=k, now=_short(_val(diff0, key)), pre=_short(_val(pre, key)))
@@ -338,36 +440,14 @@ class C14(Prop):
     # -- model -------------------------------------------------------------------
     def model_requests(self, case, obs):
         self._ensure_ref()
-        cfg = case.get("config", "terminal")
-        fail = 4 if cfg == "jedi" else None
-        mops = []
-        for op in case["ops"]:
-            if cfg == "embedded":
-                mops.append(["fresh"])
-            if op == "enable":
-                mops.append(["enable", False, fail])
-            elif op == "enable_again":
-                mops.append(["enable", True, fail])
-            elif op == "disable":
-                mops.append(["disable"])
-            elif op == "load_ext":
-                mops.append(["loadExt", fail])
-            elif op == "unload_ext":
-                mops.append(["unloadExt"])
-            elif op == "reload_ext":
-                mops.append(["reloadExt", fail])
-            elif op == "run_cell":
-                mops.append(["invoke", "astVisit", "ok"])
-            elif op == "complete":
-                mops.append(["invoke", "globalMatches", "ok"])
+        mops, marks = model_ops(case.get("config", "terminal"), case["ops"])
         mcfg = dict(resetDisabler=self._variant["resetDisabler"], debugHookSafe=False, redisplayGuard=False, debug=False)
-        return [dict(op="trace", cfg=mcfg, ops=mops)]
+        return [dict(op="trace", cfg=mcfg, ops=mops, marks=marks)]
 
     def compare(self, case, obs, resps):
         cfg = case.get("config", "terminal")
-        msteps = resps[0]["steps"]
-        if cfg == "embedded":
-            msteps = msteps[1::2]
+        _, marks = model_ops(cfg, case["ops"])
+        msteps = [resps[0]["steps"][k] for k in marks]
         isteps = obs["steps"]
         if len(msteps) != len(isteps):
             return f"trace length impl={len(isteps)} model={len(msteps)}"
@@ -413,6 +493,11 @@ class C14(Prop):
                 wl = [(e[0], rm((e[0], e[1]))) for e in m[mkey]]
                 if gl != wl:
                     return f"step {i} {op}: {lname} impl={gl} model={wl}"
+                # which list object is bound: same pattern of identities as the model's rebind counter
+                go = ri(("list", lname, a["mv"]["hlobj"][lname]))
+                wo = rm(("list", lname, m[mkey + "Obj"]))
+                if go != wo:
+                    return f"step {i} {op}: identity pattern of the {lname} list object impl={go} model={wo}"
             if op == "run_cell":
                 auto = a["cell"]["err"] is None and a["cell"]["bound_after"]
                 if auto != m["auto"] or (m["work"] != auto):
